@@ -455,6 +455,40 @@ def rule_r7(repo, run):
                               % (line.strip()[:50], mm.group(2)), m.loc(node), sample=dict(line=line.strip()[:60]))
     if n < 1:
         raise AnalysisError("C13.R7: the literal-line example (`@--cap->refcount;`) was not found; rule would be vacuous")
+    # YAML list items start with "- ": emitted through write_lines they need the literal marker as well
+    for mn in ("main",):
+        m = repo.module(mn)
+        for c in ast.walk(m.tree):
+            if isinstance(c, ast.Call) and isinstance(c.func, ast.Attribute) and c.func.attr == "append" and c.args:
+                lead = None
+                for x in ast.walk(c.args[0]):
+                    if isinstance(x, ast.Constant) and isinstance(x.value, str):
+                        lead = x.value
+                        break
+                if lead is not None and re.match(r"^@?- \w", lead):
+                    n += 1
+                    run.check(R, "%s:%s" % (mn, lead.strip()[:30]), lead.startswith("@"),
+                              "the line `%s...` starts with `- ` (a YAML list item); write_lines takes the `-` for a de-indent "
+                              "directive and deletes it unless the line is marked literal with @" % lead[:20], m.loc(c))
+    # statements that list one name per overload must be breakable
+    wf = repo.module("wrapf")
+    wcl = wf.func("Wrapf.wrap_class")
+    gens = [c for c in ast.walk(wcl) if isinstance(c, ast.Call) and isinstance(c.func, ast.Attribute) and c.func.attr == "append"
+            and c.args and any(isinstance(x, ast.Constant) and isinstance(x.value, str) and "generic ::" in x.value
+                               for x in ast.walk(c.args[0]))]
+    lists = [a for a in ast.walk(wcl) if isinstance(a, ast.Assign) and isinstance(a.value, ast.List)
+             and any(isinstance(e, ast.Constant) and isinstance(e.value, str) and "generic ::" in e.value for e in a.value.elts)]
+    joined = [c for c in ast.walk(wcl) if isinstance(c, ast.Call) and isinstance(c.func, ast.Attribute) and c.func.attr == "join"
+              and isinstance(c.func.value, ast.Constant) and c.args and isinstance(c.args[0], ast.Name)
+              and c.args[0].id in [a.targets[0].id for a in lists if isinstance(a.targets[0], ast.Name)]]
+    gens = [c for c in gens if any(isinstance(j, ast.Call) and isinstance(j.func, ast.Attribute) and j.func.attr == "join"
+                                    and isinstance(j.func.value, ast.Constant) and "\t" not in str(j.func.value.value)
+                                    for j in ast.walk(c.args[0]))]
+    ok = not gens and len(lists) == 1 and len(joined) == 1 and "\t" in joined[0].func.value.value
+    run.check(R, "wrapf.Wrapf.wrap_class:generic-list-breakable", ok,
+              "the type-bound `generic :: name => a, b, ...` statement lists one specific per overload and must be "
+              "assembled from parts joined with break hints (\\t); as one string it cannot be continued and exceeds 132 "
+              "columns for a handful of overloads", wf.loc(wcl))
 
 
 def run(repo, run, tier):
